@@ -21,6 +21,7 @@ def variants(algo, tier):
         out.append(("svd-normalize", {"init": "svd", "normalize_factors": True}))
         out.append(("mask", {"init": "random", "mask": "MASK"}))
         out.append(("fixed0", {"init": "user", "fixed_modes": [0]}))
+        out.append(("einsum-random-normalize", {"init": "random", "normalize_factors": True, "tenalg": "einsum"}))
     elif algo == "non_negative_parafac_hals":
         for init in ("svd", "random", "user", "user-zeros"):
             out.append((f"{init}", {"init": init}))
@@ -34,6 +35,8 @@ def variants(algo, tier):
         out.append(("svd-fixed0", {"init": "svd", "fixed_modes": [0]}))
         out.append(("svd-fixed-last", {"init": "svd", "fixed_modes": "LASTONLY"}))
         out.append(("nn_modes-[0, 1]-svd-fixed0", {"init": "svd", "nn_modes": [0, 1], "fixed_modes": [0]}))
+        out.append(("einsum-svd", {"init": "svd", "tenalg": "einsum"}))
+        out.append(("einsum-nn_modes-[1]", {"init": "random", "nn_modes": [1], "tenalg": "einsum"}))
     elif algo == "non_negative_tucker":
         for init in ("svd", "random"):
             out.append((init, {"init": init}))
@@ -45,12 +48,15 @@ def variants(algo, tier):
             out.append((f"{alg}-normalize", {"init": "random", "algorithm": alg, "normalize_factors": True}))
             out.append((f"{alg}-sparsity", {"init": "svd", "algorithm": alg, "sparsity_coefficients": "PERMODE:0.3", "core_sparsity_coefficient": 0.2}))
         out.append(("fista-exact", {"init": "random", "algorithm": "fista", "exact": True}))
+        out.append(("einsum-fista-svd", {"init": "svd", "algorithm": "fista", "tenalg": "einsum"}))
+        out.append(("einsum-active_set-random", {"init": "random", "algorithm": "active_set", "tenalg": "einsum"}))
     elif algo == "constrained_parafac":
         out.append(("all-svd", {"init": "svd", "non_negative": True}))
         out.append(("all-random", {"init": "random", "non_negative": True}))
         out.append(("dict-0", {"init": "svd", "non_negative": {0: True}}))
         out.append(("dict-0-last", {"init": "random", "non_negative": "DICT:0,LAST"}))
         out.append(("all-inner1", {"init": "svd", "non_negative": True, "n_iter_max_inner": 1}))
+        out.append(("einsum-dict-0-last", {"init": "svd", "non_negative": "DICT:0,LAST", "tenalg": "einsum"}))
     elif algo == "parafac2-linesearch-seam":
         # the accepted extrapolated step of PARAFAC2's line search, driven directly (narrowest seam): every subset of declared modes
         for nn in ([0], [2], [0, 2], [0, 1], [1, 2], [0, 1, 2], [2, 0]):
@@ -65,6 +71,7 @@ def variants(algo, tier):
         out.append(("nn-[0]-linesearch-svd", {"init": "svd", "nn_modes": [0], "linesearch": True}))
         out.append(("nn-[0, 2]-linesearch-svd", {"init": "svd", "nn_modes": [0, 2], "linesearch": True}))
         out.append(("nn-[0]-normalize", {"init": "random", "nn_modes": [0], "linesearch": False, "normalize_factors": True}))
+        out.append(("einsum-nn-[0, 2]", {"init": "random", "nn_modes": [0, 2], "linesearch": False, "tenalg": "einsum"}))
     return out
 
 
